@@ -474,7 +474,15 @@ class SReal(Sym):
         return SReal(to_real(o) - self.t) if self._ok(o) else NotImplemented
 
     def __mul__(self, o):
-        return SReal(self.t * to_real(o)) if self._ok(o) else NotImplemented
+        if not self._ok(o):
+            return NotImplemented
+        if isinstance(o, SInt):
+            ctx = _ctx()
+            if getattr(ctx, 'float_overflow_nondet', False):
+                if ctx.branch(ctx.fresh_bool('int_too_large_for_float', register=False).t):
+                    from .interp import py_raise
+                    py_raise(OverflowError('int too large to convert to float'))
+        return SReal(self.t * to_real(o))
     __rmul__ = __mul__
 
     def __neg__(self):
